@@ -144,7 +144,7 @@ def check(case, ctx):
     # spectral measures on undirected graphs
     ev = np.linalg.eigvalsh(W)
     gaps = np.diff(np.sort(ev))
-    repeated = bool(np.any(gaps < 1e-9))
+    repeated = bool(np.any(gaps < 1e-9 * min(1.0, max(float(np.max(np.abs(ev))), 1e-300))))
     if repeated:
         ctx.mark_nontrivial(case)
         ctx.label("repeated-eigenvalue")
@@ -181,7 +181,7 @@ def check(case, ctx):
                 if abs(np.linalg.norm(v) - 1) > 1e-8:
                     fails.append(Failure("eigenvector_centrality_und:not-unit-norm", "%r" % np.linalg.norm(v), case))
                 res = np.linalg.norm(W @ v - lam * v)
-                if res > 1e-8 * max(1.0, abs(lam)):
+                if res > 1e-8 * (abs(lam) if lam > 0 else 1.0):
                     fails.append(Failure("eigenvector_centrality_und:not-an-eigenvector-of-lambda-max",
                                          "||Av - lambda_max v|| = %.3g (lambda_max=%r)" % (res, lam), case, {"repeated": repeated}))
     elif m == "findwalks":
@@ -287,6 +287,8 @@ def walk_graph(draw, nmax):
         for i, v in enumerate(d):
             W[i, i] = v / 4.0
         fam = fam + "+selfloops"
+    # the same network in another unit: the transition matrix (and so every random-walk measure) is unchanged
+    W = W * draw(st.sampled_from([1.0, 1.0] + gen.POW2_SCALES))
     return W, fam
 
 
@@ -310,7 +312,7 @@ def cases(draw, measures):
         return {"measure": m, "W": A.astype(float), "family": "dense-large"}
     A, fam = draw(spectral_graph(8 if m == "findwalks" else 12))
     if m == "eigenvector" and draw(st.booleans()):
-        W = draw(gen.weights_for(A, "dyadic", False))
+        W = draw(gen.weights_for(A, "dyadic", False)) * draw(st.sampled_from([1.0, 1.0] + gen.POW2_SCALES))
     else:
         W = A.astype(float)
     return {"measure": m, "W": W, "family": fam, "order": draw(st.sampled_from(gen.ORDERS))}
